@@ -147,9 +147,11 @@ func (lc layoutCase) build() (reflect.Type, error) {
 			}
 		}
 		for _, f := range lc.fields {
-			tag := fmt.Sprintf(`uhppote:"offset:%d"`, f.offset)
+			// the tag grammar allows blanks after the colon ("offset: 8", "value: 0x20"): every third field is written that way
+			sp := []string{"", "", " ", "", "", "  "}[(f.offset+len(f.name))%6]
+			tag := fmt.Sprintf(`uhppote:"offset:%s%d"`, sp, f.offset)
 			if f.fixed >= 0 {
-				tag = fmt.Sprintf(`uhppote:"offset:%d, value:%s"`, f.offset, f.tagval)
+				tag = fmt.Sprintf(`uhppote:"offset:%s%d, value:%s%s"`, sp, f.offset, sp, f.tagval)
 			}
 			sf := reflect.StructField{Name: f.name, Type: f.k.t, Tag: reflect.StructTag(tag)}
 			if f.embed {
@@ -239,6 +241,7 @@ func c18Value(r gen.R, k fkind, f lfield) (reflect.Value, rm.Val) {
 			return wrap(types.DateTime{}, rm.ZeroDateTime())
 		}
 		t := localDateTime(r)
+		t = t.Add(time.Duration([]int{0, 0, 1, 499_999_999, 500_000_000, 750_000_000, 999_999_999}[r.Pick(7)])) // a fraction of a second: the second the value is in goes on the wire
 		y, m, d := t.Date()
 		h, mi, s := t.Clock()
 		return wrap(types.DateTime(t), rm.DateTimeVal(y, int(m), d, h, mi, s))
